@@ -22,6 +22,7 @@ static inline void jitter() {
     sched_yield();
 }
 void sync_point(int, const volatile void *, size_t) { jitter(); }
+void post_point(int, const volatile void *, size_t) { jitter(); }
 void blocking_begin() {}
 void blocking_end() {}
 void yield_point() { sched_yield(); }
